@@ -34,7 +34,7 @@ CHECKS = {
             'Provider side only; one MDIB file; depth/alphabet bounds as in the evidence. Version bookkeeping of the oracle is '
             'independent of handle_version_lookup.', '3/C02'),
     'C03': ('H+I', 'exhaustive crash-point enumeration over transaction bodies plus exhaustive enumeration (by reflection) of nested attribute paths of every handed-out object, against full canonical MDIB snapshots',
-            'Extensions: rejected calls whose exception is handled inside the transaction body (differential oracle: the same transaction without the call); commit paths the API could make fail half-way (state that exists in the mdib, foreign context-state handle through the entity interface, changed Handle of a descriptor copy); entities refreshed with entity.update() after a later commit made them stale are handed-out objects too (nested writes must stay private); every keyword combination of mk_context_state / add_state (handle none/existing/new x adjust_state_version x set_associated) as all-or-nothing calls; with periodic reports on, writing to a transaction result must not change the states retained for the periodic report of that commit. '
+            'Extensions: the vetoing pre-commit handler runs after the role providers' own handler (their preparations must be undone too); refreshed multi-state entity that learns a new state in update(); rejected calls whose exception is handled inside the transaction body (differential oracle: the same transaction without the call); commit paths the API could make fail half-way (state that exists in the mdib, foreign context-state handle through the entity interface, changed Handle of a descriptor copy); entities refreshed with entity.update() after a later commit made them stale are handed-out objects too (nested writes must stay private); every keyword combination of mk_context_state / add_state (handle none/existing/new x adjust_state_version x set_associated) as all-or-nothing calls; with periodic reports on, writing to a transaction result must not change the states retained for the periodic report of that commit. '
             'For 13 transaction bodies covering every transaction kind through the classic and the entity interface, an exception is '
             'raised after every non-empty ordered selection of the body\'s API calls and in the pre-commit hook; 29 calls the API must '
             'reject and 3 commit paths the API can make fail are issued alone and after a valid modification; every nested attribute '
@@ -58,7 +58,7 @@ CHECKS = {
             'Single subscriber; content comparison goes through the library reader (versions, handles, grouping through lxml only); '
             'ordering under concurrent writers is covered by the schedule-exploration part when present in the evidence.', '3/C04'),
     'C05': ('I', 'bounded-exhaustive enumeration of instances of every declared data-type / message / container class against the bundled XSD (independent libxml2 validator), canonical round-trip equality, write idempotence and object-identity rules',
-            'Extensions: hand-written XML members (HeaderInformationBlock.reference_parameters) in the value domain, purity and round-trip oracles; write / in-place edit of scalar lists / write again must equal a never-written equal value; exponent-form decimals in list attributes, the empty string for plain xsd:string members. '
+            'Extensions: read-your-write oracle (an assigned scalar is what is read back - no implied value may replace a falsy one); list-typed members re-spelled with other white space (tab / line break character references, indentation) must parse to the same value; hand-written XML members (HeaderInformationBlock.reference_parameters) in the value domain, purity and round-trip oracles; write / in-place edit of scalar lists / write again must equal a never-written equal value; exponent-form decimals in list attributes, the empty string for plain xsd:string members. '
             '225 classes found by reflection (participant model, message model, WS-Addressing / Eventing / Discovery / DPWS / MEX, SOAP fault, '
             'all state and descriptor containers; 174 validated as their named XSD type through a harness-generated wrapper schema or as global '
             'element, the rest inside their owners). Per class: the base instance (members that the library or the XSD requires), every single '
@@ -100,7 +100,7 @@ CHECKS = {
             'Lock granularity with bound 2/3, statement granularity (anchor functions only) with bound 1/2; sync subscription manager without subscriber; one schedule is replayed twice per run as determinism '
             'self-check.', '3/C07'),
     'C08': ('H+S', 'explicit-state breadth-first search with canonical-state dedup over eventing histories on the four real subscription managers inside the real provider dispatch chain, against a reference model of subscription liveness on the same virtual clock; preemption-bounded schedule exploration (lock and statement granularity) of Renew/GetStatus racing with report delivery and housekeeping',
-            'Extensions: schedule part (c08_sched): Renew(5) / Renew(99) / GetStatus of a live subscription (11 s granted, 8 s elapsed) served in one thread while another thread delivers a metric report and a third runs one housekeeping pass, scheduling points at every lock operation and every statement of provider/subscriptionmgr*.py, all schedules with one preemption (thorough: two, all four managers): the report must reach the subscriber, the subscription must stay in the table, GetStatus afterwards agrees with the model; mid-delivery events: while a report is handed to the first subscriber the other one unsubscribes (second real thread) or all subscriptions expire - nothing may reach it afterwards; timeout faults also in the quick tier. '
+            'Extensions: subscriber A sends a pretty-printed (line-wise, indented) action filter; real notification SoapClient against every HTTP status x body shape (an error answer without body is a failed delivery); schedule part (c08_sched): Renew(5) / Renew(99) / GetStatus of a live subscription (11 s granted, 8 s elapsed) served in one thread while another thread delivers a metric report and a third runs one housekeeping pass, scheduling points at every lock operation and every statement of provider/subscriptionmgr*.py, all schedules with one preemption (thorough: two, all four managers): the report must reach the subscriber, the subscription must stay in the table, GetStatus afterwards agrees with the model; mid-delivery events: while a report is handed to the first subscriber the other one unsubscribes (second real thread) or all subscriptions expire - nothing may reach it afterwards; timeout faults also in the quick tier. '
             'BFS to depth 4 (thorough 6) over 34 events - Subscribe (expires omitted / 5 / 99 > maximum), Renew, GetStatus, Unsubscribe, '
             'the same three naming an unknown identifier, metric and alert reports, clock ticks of 2 s and 4 s across expiry, one pass of '
             'the real housekeeping loop body, delivery-fault mode per subscriber (ok, HTTP 500, refused; thorough also timeout, not '
@@ -128,7 +128,7 @@ CHECKS = {
             'races that need a preemption inside generate_transaction_id are the subject of the schedule explorer (not part of this '
             'check yet).', '3/C09'),
     'C10': ('H', 'explicit-state exploration of histories of set_location, SetContextState invocations (real consumer client, provider SCO worker body, role provider) and context transactions; invariant on the context table and on every EpisodicContextReport',
-            'Extensions: location context states proposed through SetContextState, mixed with set_location; statement-granularity pass of the race part; schedule part: a SetContextState request thread racing with a provider-side context change of the same descriptor (3 writers x 2-4 proposals, preemption bound 1, thorough 2), invariants evaluated on the table recorded at every commit. '
+            'Extensions: two-proposal requests whose second proposal is rejected (unknown state handle) and data-only updates next to a new associated state; location context states proposed through SetContextState, mixed with set_location; statement-granularity pass of the race part; schedule part: a SetContextState request thread racing with a provider-side context change of the same descriptor (3 writers x 2-4 proposals, preemption bound 1, thorough 2), invariants evaluated on the table recorded at every commit. '
             'All 2-event histories over 26 events and all 3-event histories over a 7-event core (thorough: larger core): SetContextState '
             'requests with one or two proposals (new / update of the first or second existing state / stale handle x NoAssociation, '
             'PreAssociation, Associated, Disassociated, including two associated proposals for one descriptor) sent by the real consumer '
@@ -141,7 +141,7 @@ CHECKS = {
             'Only the patient context has a SetContextState operation in tests/mdib_tns.xml; queued operations are executed by running '
             'the real worker loop body synchronously.', '3/C10'),
     'C11': ('H+S', 'explicit-state BFS with canonical-state dedup over table operation histories on the real MultiKeyLookup tables, plus MDIB history exploration, consumer MDIB after lost reports, and preemption-bounded schedule exploration (statement granularity) of a reader under the table lock against every locked mutator; invariant = indices equal an independent regrouping of table.objects',
-            'Extensions: (c) consumer MDIB after every subsequence of the reports of histories whose later reports are then rejected half-way (lost delete before a re-create); (d) schedule part c11_sched: a reader holding the table lock against every locked mutator of MultiKeyLookup, scheduling points at every statement of multikey.py; '
+            'Extensions: get_one probed for every key of the attribute domains after every operation, with look-ups between the replayed operations (an answer remembered by an index must not survive a table change); unexpected exceptions of table operations are violations; re-created alert signal after a lost delete report; (c) consumer MDIB after every subsequence of the reports of histories whose later reports are then rejected half-way (lost delete before a re-create); (d) schedule part c11_sched: a reader holding the table lock against every locked mutator of MultiKeyLookup, scheduling points at every statement of multikey.py; '
             'Breadth-first search over add (3 variants) / remove (3 variants) / attribute write + update_object / clear / bulk add / '
             'update_objects / duplicate-key add on the real DescriptorsLookup, StatesLookup, MultiStatesLookup, a generic 3-index '
             'table and the subscription-table declaration, 2-3 stub objects with colliding attribute domains, depth 5-6 (thorough 5-9), '
@@ -152,7 +152,7 @@ CHECKS = {
             'Attribute writes are always followed by update_object; updates that would create a duplicate unique key are outside the '
             'alphabet; the key functions of the index declarations are trusted, their maintenance is what is checked.', '3/C11'),
     'C12': ('H', 'exhaustive enumeration by reflection over all declared data-type/container classes of construct / parse(absent) / parse(present) / deepcopy / mk_copy / nested-write sequences',
-            'Extensions: populated instances carry extension elements; xml elements count as mutable members in the identity check; the instances\' own storage (every mutable object in __dict__, e.g. the storage of observable properties) and the plain attribute node. '
+            'Extensions: the same XML parsed twice; copies (mk_copy, deepcopy) of instances whose lists / extension values are empty, with the source kept; a fresh instance that cannot be constructed any more is a violation; populated instances carry extension elements; xml elements count as mutable members in the identity check; the instances\' own storage (every mutable object in __dict__, e.g. the storage of observable properties) and the plain attribute node. '
             'For each of the ~250 classes with declared properties six independently obtained instances (constructor, parse of an element '
             'with every optional/defaulted member absent, parse of a fully written default, deepcopy, mk_copy, second parse) are '
             'compared by identity of every nested mutable object (depth 3) with each other and with the class-level default objects; '
@@ -162,7 +162,7 @@ CHECKS = {
             'Classes that cannot be constructed without unknown arguments (19 abstract/helper classes) are skipped and counted; '
             'reflection depth 3.', '3/C12'),
     'C13': ('I', 'bounded-exhaustive enumeration of all single structure-aware mutations, HTTP framing and header variants and short raw byte strings of every request type the library produces, each executed on a pristine provider+consumer world through the real DispatchingRequestHandler and message converters',
-            'Extensions: percent-encoded request targets (non-latin-1, CR LF + header line, NUL, encoded slash / element, invalid UTF-8) and a response-header-injection oracle; consumer event sink with the default deferred dispatcher: the real worker loop is run after every request and must survive it; multi-state reports and description modification reports of indexed descriptors in the corpus, substitution of existing handles of another kind, lookup scan (index consistency) in the compared state. '
+            'Extensions: a deferred worker loop that returns instead of waiting has ended (violation); percent-encoded request targets (non-latin-1, CR LF + header line, NUL, encoded slash / element, invalid UTF-8) and a response-header-injection oracle; consumer event sink with the default deferred dispatcher: the real worker loop is run after every request and must survive it; multi-state reports and description modification reports of indexed descriptors in the corpus, substitution of existing handles of another kind, lookup scan (index consistency) in the compared state. '
             'Corpus: all 34 request types captured from the loop-back wire (every service request incl. Subscribe/Renew/GetStatus/Unsubscribe, '
             'Probe, TransferGet, all 9 notification types, SubscriptionEnd). Per type: every element deleted / duplicated / renamed / moved to '
             'another or no namespace / swapped with its sibling / given an unexpected child; every attribute deleted / renamed / set to each of 15 '
@@ -179,7 +179,7 @@ CHECKS = {
             'blocking on an open idle connection is not modelled; the world is rebuilt after every state-changing accepted exchange (fork per '
             'case is 30-80 ms and serialises in this sandbox). Transaction-id counters are not part of the compared state.', '3/C13'),
     'C14': ('I+H', 'exhaustive enumeration of scope-URI pairs from a grammar against a reference matcher plus laws; explicit-state exploration of discovery datagram histories through the real reader/handlers against a reference model',
-            'Extensions: application hello callback (raising / well-behaved) as an environment fault, repetition of older datagrams; requested scopes with the scheme in another case; authority grammar (host case, port, userinfo, IPv6 literal, empty port) in all ordered pairs. '
+            'Extensions: the same endpoint published again with other scopes (Probe answers follow the latest publication); application hello callback (raising / well-behaved) as an environment fault, repetition of older datagrams; requested scopes with the scheme in another case; authority grammar (host case, port, userinfo, IPv6 literal, empty port) in all ordered pairs. '
             'All ordered pairs over a URI grammar (3 schemes x 3 authorities x 0-2 (thorough 3) path segments over {x, X, x%2Fy, %78, '
             'empty} x trailing slash x query; quick: every third URI as probe scope) under rfc3986, default and strcmp0 matching are '
             'compared with a 12-line reference matcher written from the property text, plus reflexivity and query-blindness; every '
@@ -211,7 +211,7 @@ CHECKS = {
             'Empty string == absent element; the all-absent location is not published (rejected by contract); values outside the '
             'domain V are not covered.', '3/C16'),
     'C17': ('I', 'exhaustive enumeration of small byte strings x chunk sizes x codings with http.client as independent framing oracle, single-byte corruption at every offset, and the product of Accept-Encoding shapes through the real handler / client code against an RFC 7231 reference',
-            'Extensions: data after the end of the compressed stream (second member / frame, padding, junk) against reference decoders (stdlib gzip, frame-by-frame lz4); provider-level configuration histories: set_used_compression before / after start for every ordered pair of settings, own HTTP server and notification clients; sequences of 2 (thorough 3) requests with different Accept-Encoding headers on one keep-alive connection. '
+            'Extensions: coding of notifications after Subscribe requests with every Accept-Encoding shape, sync and async managers (real SoapClient request logic on the arguments the provider passes); data after the end of the compressed stream (second member / frame, padding, junk) against reference decoders (stdlib gzip, frame-by-frame lz4); provider-level configuration histories: set_used_compression before / after start for every ordered pair of settings, own HTTP server and notification clients; sequences of 2 (thorough 3) requests with different Accept-Encoding headers on one keep-alive connection. '
             'All byte strings of length <= 4 (thorough 5) over {00, a, CR, LF} with every chunk size 1..len+2 and large bodies (511..65536 '
             'bytes, thorough up to 5 MiB) with boundary chunk sizes are framed by mk_chunks and decoded by _read_dechunk, '
             'read_request_body, read_response_body and, as independent oracle, Python\'s http.client.HTTPResponse; every registered '
@@ -248,7 +248,7 @@ CHECKS = {
             'TLS-to-plaintext and plaintext-to-TLS connects like a real peer; that the real socket classes honour the context they '
             'are given is not explored.', '3/C19'),
     'C20': ('I', 'exhaustive enumeration of all handle lists up to a length bound over several MDIB contents, and of the full product of localization filter parameters over several stores, through the real consumer clients and provider services',
-            'Extensions: text store filled by several add() calls in every order (late versions, late single translation, repeated batch); '
+            'Extensions: GetSupportedLanguages / GetLocalizedText between the additions to the text store; certloader histories: an earlier load of the same key / certificate without CA or with another CA in the same process, then the CA load; text store filled by several add() calls in every order (late versions, late single translation, repeated batch); '
             'All handle lists of length <= 2 (thorough 3) over a pool of 9-11 handles (two context-state handles, context descriptors, '
             'metric, MDS of both MDS, VMD, system context, unknown - duplicates and mixed kinds arise by construction) are sent as '
             'GetMdState and GetContextStates through the real consumer service clients over the loop-back transport, for 4 MDIB '
